@@ -412,6 +412,84 @@ impl StarknetHintProcessor for Faulty<'_> {
     }
 }
 
+/// Felt252 range reductions: `felt252 -> BoundedInt<L, U>` downcasts over boundary (L, U) pairs,
+/// run on arguments around L, U, 2^128 and 2^128 + L (where the two range checks of the in-range
+/// branch meet their limits).
+pub fn range_reduction_case(ch: &mut Choices) -> execs::Case {
+    use num_bigint::BigInt;
+    let two128: BigInt = BigInt::from(1u8) << 128u32;
+    let p: BigInt = (BigInt::from(1u8) << 251u32) + (BigInt::from(17u8) << 192u32) + BigInt::from(1u8);
+    let lows: Vec<BigInt> = vec![
+        BigInt::from(0),
+        BigInt::from(1),
+        BigInt::from(5),
+        BigInt::from(1u64 << 40),
+        BigInt::from(1u8) << 64u32,
+        BigInt::from(1u8) << 127u32,
+        BigInt::from(0xf8u8) << 120u32,
+        two128.clone() - (BigInt::from(1u8) << 20u32),
+        BigInt::from(-1),
+        BigInt::from(-128),
+        -(BigInt::from(1u8) << 127u32),
+    ];
+    let l = lows[ch.below(lows.len())].clone();
+    let ups: Vec<BigInt> = vec![
+        &l + 1,
+        &l + 255,
+        BigInt::from(255),
+        BigInt::from(u64::MAX),
+        &two128 - 2,
+        &two128 - 1,
+        two128.clone(),
+        &two128 + 1,
+        two128.clone() + (BigInt::from(1u8) << 64u32),
+        l.clone() + (BigInt::from(1u8) << 100u32),
+        l.clone() + (BigInt::from(1u8) << 122u32),
+        BigInt::from(127),
+    ];
+    let mut u = ups[ch.below(ups.len())].clone();
+    if u < l {
+        u = &l + 3;
+    }
+    let mut cands: Vec<BigInt> = vec![
+        &l - 1,
+        l.clone(),
+        &l + 1,
+        &u - 1,
+        u.clone(),
+        &u + 1,
+        &two128 - 1,
+        two128.clone(),
+        &two128 + 1,
+        &two128 + 7,
+        &two128 + &l - 1,
+        &two128 + &l,
+        &two128 + &u,
+        BigInt::from(0),
+        &p - 1,
+        (&p - 1) / 2,
+    ];
+    for c in cands.iter_mut() {
+        *c = num_integer::Integer::mod_floor(&*c, &p);
+    }
+    let n = 3;
+    let args: Vec<Vec<Arg>> = (0..n).map(|_| vec![Arg::Value(exec::bigint_to_felt(&cands[ch.below(cands.len())]))]).collect();
+    let source = format!(
+        "use core::internal::bounded_int::BoundedInt;\nfn rr(a: felt252) -> felt252 {{\n    let r: Option<BoundedInt<{l}, {u}>> = a.try_into();\n    match r {{\n        Option::Some(x) => x.into(),\n        Option::None => 'none',\n    }}\n}}\n"
+    );
+    execs::Case {
+        origin: format!("range reduction felt252 -> BoundedInt<{l}, {u}>"),
+        source,
+        settings: crate::core::cairo::SETTINGS_2023_01,
+        func: Some("::rr".into()),
+        func_choice: 0,
+        gen_args: Some(args),
+        arg_seeds: vec![],
+        expected: None,
+        generated: false,
+    }
+}
+
 pub struct RunOut {
     pub result: Result<Exec, ExecErr>,
     pub kinds: Vec<&'static str>,
@@ -473,7 +551,7 @@ impl Prop for C03 {
     }
     fn rule(&self) -> String {
         "Programs: e2e snippet functions (libfunc-level: integer division, wide multiplication, square roots, u256 / \
-         u512 division, inverse mod n, casts and range reductions, EC, dictionaries), example files, a curated file of hint-rich corelib calls (square roots, u256 division / inverse / mul-mod, wide multiplication, felt downcasts, dictionary squash, EC, felt division) and \
+         u512 division, inverse mod n, casts and range reductions, EC, dictionaries), example files, felt252 -> BoundedInt<L, U> range reductions over boundary (L, U) pairs on arguments around L, U, 2^128 and 2^128 + L, a curated file of hint-rich corelib calls (square roots, u256 division / inverse / mul-mod, wide multiplication, felt downcasts, dictionary squash, EC, felt division) and \
          generated typed programs, with arguments directed by the Sierra parameter types. The honest run records every \
          dynamic occurrence of a hint whose outputs are cells a prover chooses (23 kinds: TestLessThan*, WideMul128, \
          DivMod, Uint256DivMod, Uint512DivModByUint256, SquareRoot, Uint256SquareRoot, LinearSplit, \
@@ -510,7 +588,14 @@ impl Prop for C03 {
             }
             // Fault choices first (choice starvation).
             let plan: Vec<(u32, u32, u8, u8, u64)> = (0..per_case).map(|_| (ch.next(), ch.next(), ch.below(13) as u8, ch.below(6) as u8, ch.u64())).collect();
-            let case = if ch.chance(1, 3) { execs::pick_case(ch, &curated, 0, 3) } else { execs::pick_case(ch, &snippets, 3, 2) };
+            let case = match ch.weighted(&[2, 3, 5]) {
+                0 => range_reduction_case(ch),
+                1 => execs::pick_case(ch, &curated, 0, 3),
+                _ => execs::pick_case(ch, &snippets, 3, 2),
+            };
+            if case.origin.starts_with("range reduction") {
+                cc.stats().count("range_reduction_cases");
+            }
             let cfg = FrontCfg::default_cfg();
             let meta = MetaCfg::linear();
             let c = match execs::compile_case(&mut db, &case, &cfg, meta) {
